@@ -284,7 +284,17 @@ impl<T: RealNumber + Scalar + AddAssign + SubAssign + MulAssign + DivAssign + Su
     }
 
     fn dot(&self, other: &Self) -> T {
-        self.dot(other)
+        // nalgebra's own dot insists on equal shapes; a row and a column vector of the same
+        // length are the same vector here, as for the other back ends
+        if (self.nrows() != 1 && other.nrows() != 1) && (self.ncols() != 1 && other.ncols() != 1) {
+            panic!("A and B should both be either a row or a column vector.");
+        }
+        if self.len() != other.len() {
+            panic!("A and B should have the same size");
+        }
+        self.iter()
+            .zip(other.iter())
+            .fold(T::zero(), |acc, (a, b)| acc + *a * *b)
     }
 
     fn slice(&self, rows: Range<usize>, cols: Range<usize>) -> Self {
